@@ -5,6 +5,7 @@ import collections
 import concurrent.futures
 import json
 import os
+import re
 import shutil
 import typing
 
@@ -56,9 +57,124 @@ STEMS = [None, None, 'zz', '_ns', 'index']
 OUTDIRS = ['rel', 'trail', 'dot', 'abs', 'abstrail']
 
 
+# ---- names drawn from the language configuration of the tree under test -----------------------------------------------------
+def _sample_regex(pat: str, limit: int = 12) -> typing.List[str]:
+    """a few strings matching `pat` (the subset used by properties.yaml: anchors, literals, classes, groups, alternation,
+    ? * + {n}); every candidate is re-checked with re.search by the caller, so imprecision here only loses candidates"""
+    try:
+        import re._parser as sre   # Python >= 3.11
+    except ImportError:            # pragma: no cover
+        import sre_parse as sre
+
+    def pick_in(items) -> typing.List[str]:
+        out = []
+        neg = any(op is sre.NEGATE for op, _ in items)
+        if neg:
+            return ['a', 'Q']
+        for op, av in items:
+            if op is sre.LITERAL:
+                out.append(chr(av))
+            elif op is sre.RANGE:
+                lo, hi = av
+                out.extend({chr(lo), chr(hi), chr((lo + hi) // 2)})
+            elif op is sre.CATEGORY:
+                out.extend(['a', '7', '_'])
+        return [c for c in out if c.isalnum() or c == '_'][:4] or ['a']
+
+    def gen(seq) -> typing.List[str]:
+        res = ['']
+        for op, av in seq:
+            if op is sre.LITERAL:
+                alts = [chr(av)]
+            elif op is sre.IN:
+                alts = pick_in(av)
+            elif op is sre.ANY:
+                alts = ['a']
+            elif op is sre.AT:
+                alts = ['']
+            elif op is sre.SUBPATTERN:
+                alts = gen(av[3])
+            elif op is sre.BRANCH:
+                alts = [x for b in av[1] for x in gen(b)]
+            elif op in (sre.MAX_REPEAT, sre.MIN_REPEAT):
+                lo, hi, sub = av
+                one = gen(sub)
+                alts = []
+                for n in sorted({lo, min(max(lo, 1), hi), min(lo + 2, hi)}):
+                    alts.extend([''] if n == 0 else [x * n for x in one[:3]] + ([one[0] + one[-1]] if n == 2 and len(one) > 1 else []))
+            else:
+                alts = ['']
+            res = [r + a for r in res for a in alts][:64]
+        return res
+    try:
+        return list(dict.fromkeys(gen(sre.parse(pat))))[:limit * 4]
+    except Exception:   # noqa: an unsupported construct only loses candidates
+        return []
+
+
+def name_pools() -> typing.Dict[str, typing.Dict[str, typing.List[str]]]:
+    """per language: names that are reserved identifiers or match a reserved pattern of ANY identifier type (so that a site
+    stropping with the wrong identifier type shows), valid as DSDL name components (pydsdl.check_name)"""
+    import yaml
+    from pydsdl._serializable._name import check_name
+    with open(os.path.join(core.REPO, 'src', 'nunavut', 'lang', 'properties.yaml'), encoding='utf-8') as f:
+        doc = yaml.safe_load(f)
+
+    def valid(n: str) -> bool:
+        try:
+            check_name(n)
+            return len(n) <= 40
+        except Exception:  # noqa
+            return False
+    pools = {}
+    for lang in LANGS:
+        sec = doc.get('nunavut.lang.' + lang, {}) or {}
+        by_kind: typing.Dict[str, typing.List[str]] = {}
+        words = [w for w in (sec.get('reserved_identifiers') or []) if isinstance(w, str) and valid(w)]
+        by_kind['reserved_identifiers'] = words
+        for kind, pats in (sec.get('reserved_token_patterns_by_type') or {}).items():
+            got = []
+            for pat in pats or []:
+                for base in _sample_regex(pat):
+                    for cand in (base, base + 'x', base + 'X', base + '_t', base + 'opic', base + '9', 'a' + base):
+                        if cand and valid(cand) and re.search(pat, cand) and cand not in got:
+                            got.append(cand)
+            by_kind['pattern:' + kind] = got[:40]
+        for kind, pats in (sec.get('token_encoding_rules_by_identifier_type') or {}).items():
+            got = []
+            for pat in pats or []:
+                for cand in ('__x', 'x__', 'a__b', '_9', 'x_'):
+                    if valid(cand) and re.search(pat, cand) and cand not in got:
+                        got.append(cand)
+            by_kind['encoding:' + kind] = got
+        pools[lang] = by_kind
+    return pools
+
+
+_POOLS: typing.Optional[dict] = None
+
+
+def pool_names(lang: str, rng) -> typing.List[str]:
+    """a fresh mixture for one case: a few names of every kind (every reserved list / pattern of every identifier type)"""
+    global _POOLS
+    if _POOLS is None:
+        try:
+            _POOLS = name_pools()
+        except Exception as ex:  # noqa: without the configuration fall back to the fixed lists (recorded in the evidence)
+            _POOLS = {'error': repr(ex)}
+    out = []
+    for kind, names in (_POOLS.get(lang) or {}).items():
+        if names:
+            out.extend(rng.sample(names, min(len(names), 3 if kind == 'reserved_identifiers' else 2)))
+    return out
+
+
 # ---- case generation ----------------------------------------------------------------------------------------------
-def gen_types(rng, n_types: int, max_depth: int) -> list:
-    root = rng.choice(ROOTS)
+def gen_types(rng, n_types: int, max_depth: int, lang: str = 'c') -> list:
+    extra = pool_names(lang, rng)
+    comps = SAFE_COMPONENTS + extra * 3      # configuration-derived names are drawn about as often as the fixed ones
+    shorts = SHORT_NAMES + extra
+    root = rng.choice(ROOTS + extra[:2])
     # a random namespace tree: set of component lists, with gaps (types only at some levels)
     nss: typing.List[typing.List[str]] = [[root]]
     for _ in range(rng.randrange(1, 7)):
@@ -66,7 +182,7 @@ def gen_types(rng, n_types: int, max_depth: int) -> list:
         for _ in range(rng.randrange(1, max_depth)):
             if len(base) > max_depth:
                 break
-            base = base + [rng.choice(SAFE_COMPONENTS)]
+            base = base + [rng.choice(comps)]
         nss.append(base)
     types = []
     used = set()
@@ -74,7 +190,7 @@ def gen_types(rng, n_types: int, max_depth: int) -> list:
     while len(types) < n_types and tries < 200:
         tries += 1
         ns = rng.choice(nss if rng.random() < 0.8 else nss[1:] or nss)
-        short = rng.choice(SHORT_NAMES)
+        short = rng.choice(shorts)
         major, minor = rng.choice([(0, 1), (1, 0), (1, 1), (1, 2), (2, 0), (10, 11), (255, 255), (1, 10)])
         if rng.random() < 0.3 and types:  # another version of an existing type
             ns, short = list(types[-1][0]), types[-1][1]
@@ -132,14 +248,15 @@ def gen_cases(rng, count: int, n_cli: int) -> list:
     n = 0
     while len(cases) < count:
         n += 1
-        types = gen_types(rng, rng.choice([1, 2, 3, 4, 6, 9, 14]), rng.choice([2, 3, 4, 6, 8]))
+        lang = rng.choice(LANGS)
+        types = gen_types(rng, rng.choice([1, 2, 3, 4, 6, 9, 14]), rng.choice([2, 3, 4, 6, 8]), lang)
         if not types:
             continue
         gen = 'api'
         if n_cli > 0 and n % 7 == 0:
             gen = rng.choice(['cli', 'cli-support'])
             n_cli -= 1
-        c = dict(id='r%d' % n, types=types, lang=rng.choice(LANGS), ext=rng.choice(EXTS), stem=rng.choice(STEMS),
+        c = dict(id='r%d' % n, types=types, lang=lang, ext=rng.choice(EXTS), stem=rng.choice(STEMS),
                  es=(False if rng.random() < 0.08 else None), outdir=rng.choice(OUTDIRS), shuffle=rng.randrange(1000), generate=gen,
                  user=rng.choice(types) if rng.random() < 0.5 else None)
         if gen != 'api':
